@@ -34,10 +34,13 @@ AtomsOf(p) ==
     [] p = 1 -> {NULL, TRU, N1, NM1, N1p5, SA, SNL}
     [] p = 2 -> {NULL, TRU, FAL, N0, NM0, N1, NM1, N12, N1p5, N1e2, NMf, N0p0, NM0p0, U64MAXS, U64OVER,
                  I64MINS, I64UNDER, SE, SA, SNL, SU, SP, SQ, SS, SF, SH, SBS}
+    \* pool for the on-demand corpora: strings containing brackets, quotes, commas
+    [] p = 3 -> {N1, TRU, SS, SQ, N1p5}
 KeysOf(p) ==
   CASE p = 0 -> {SA}
     [] p = 1 -> {SA, <<34,98,34>>}
     [] p = 2 -> {SA, <<34,98,34>>, SE, <<34,92,117,48,48,54,49,34>>, SNL, SF}   \* "a" decodes to "a"
+    [] p = 3 -> {SA, <<34,98,34>>, <<34,92,117,48,48,54,49,34>>, SNL, SS}
 
 Atoms == {Tok(b) : b \in AtomsOf(Pool)}
 Keys  == KeysOf(Pool)
